@@ -251,7 +251,28 @@ def stokes_setup(run: Run, cs, idx):
     if sympy.simplify(circ - surf) != 0:
         try:
             if not close(numeric(circ, coefvals), numeric(surf, coefvals)):
-                rec.violation(f"stokes:{shape}", f"circulation along the curve {str(circ)[:100]} != curl flux through the surface {str(surf)[:100]}", case)
+                key = f"stokes:{shape}"
+                extra = ""
+                if shape in ("triangle", "disc-cartesian"):
+                    # whose fault?  own integrand (curl_z from plain sympy.diff on the flat surface z = z0) integrated (i) by
+                    # mpmath quadrature and (ii) by plain sympy.integrate with the same dependent limits - no library code
+                    try:
+                        xs, ys, zs = bs
+                        cz = (sympy.diff(F[1], xs) - sympy.diff(F[0], ys)).subs(coefvals).subs({xs: u, ys: v, zs: z0})
+                        lims = ((u, cx + (v - cy), cx + w_), (v, cy, cy + w_)) if shape == "triangle" else ((u, cx - half, cx + half), (v, cy - R, cy + R))
+                        (_, ulo, uhi), (_, vlo, vhi) = lims
+                        f_ = sympy.lambdify((u, v), cz, "mpmath")
+                        with mpmath.workdps(20):
+                            quad_ = mpmath.quad(lambda vv: mpmath.quad(lambda uu: f_(uu, vv), [sympy.lambdify(v, ulo, "mpmath")(vv), sympy.lambdify(v, uhi, "mpmath")(vv)]),
+                                                [mpmath.mpf(sympy.N(vlo, 20)), mpmath.mpf(sympy.N(vhi, 20))])
+                        with harness.Watchdog(60):
+                            plain = sympy.integrate(sympy.integrate(cz, lims[0]), lims[1])
+                        if close(numeric(circ, coefvals), quad_, "1e-8") and not close(numeric(plain, {}), quad_, "1e-8") and close(numeric(plain, {}), numeric(surf, coefvals), "1e-8"):
+                            key = "stokes:dependent-limits:sympy-definite-integral-wrong"
+                            extra = f" [own quadrature of the curl flux = {mpmath.nstr(quad_, 12)} agrees with the curve; plain sympy.integrate of the same integrand and limits gives {plain}]"
+                    except Exception:  # pylint: disable=broad-except
+                        pass
+                rec.violation(key, f"circulation along the curve {str(circ)[:100]} != curl flux through the surface {str(surf)[:100]}{extra}", case)
                 return
         except ValueError as e:
             rec.inconc("result not numeric: " + str(e)[:60])
